@@ -107,7 +107,7 @@ def run(rep, tier, seed):
     cases = []
     per_session = 30
     for ci, chunk in enumerate(chunks(exps, per_session * 3)):
-        cs = {"id": "c17-%d" % ci, "inputrc": "set editing-mode vi\n", "w": 80, "h": 24, "prompt": "> ", "setups": [], "sessions": [], "_pairs": []}
+        cs = {"id": "c17-%d" % ci, "inputrc": "set editing-mode vi\n" + case_options(rng, ci, skip=("autocomplete",)), "w": 80, "h": 24, "prompt": "> ", "setups": [], "sessions": [], "_pairs": []}
         for sub in chunks(chunk, per_session):
             sess = []
             for (b, c, m, cnt, visual) in sub:
